@@ -30,9 +30,9 @@ DEFECTS = ("kindless", "all", "rfilter", "bareident", "insnchk")
 
 TIERS = {
     # E: exhaustive constants;  sim: traces per worker; n: sessions replayed
-    "quick": dict(E_maxreq=3, sim=90, sim_workers=8, n=260, jobs=12, tlc_workers=8, replay_s=60, min_sessions=40),
-    "thorough": dict(E_maxreq=5, sim=1500, sim_workers=8, n=6000, jobs=12, tlc_workers=8, replay_s=840,
-                     min_sessions=1000),
+    "quick": dict(E_maxreq=3, sim=30, sim_focus=30, sim_workers=8, n=120, jobs=6, tlc_workers=8, replay_s=75, min_sessions=12),
+    "thorough": dict(E_maxreq=5, sim=300, sim_focus=200, sim_workers=8, n=2500, jobs=8, tlc_workers=8, replay_s=720,
+                     min_sessions=300),
 }
 
 
@@ -72,7 +72,8 @@ def to_dap(entry, pup):
         stop = entry["ref"]["stop"]
         names = {"P": "P", "G": "G", "L": "L", "F": "F", "I": "I"}
         expect = "exit" if stop == "exit" else pup["marks"].get(names.get(stop))
-        return {"cmd": cmd, "args": ({"threadId": 0} if cmd == "continue" else {}), "run": True, "expect": expect}, []
+        return {"cmd": cmd, "args": ({"threadId": 0} if cmd == "continue" else {}), "run": True, "expect": expect,
+                "peek": pup["iter_addr"]}, []
     raise vlib.ToolError(f"unknown model command {cmd}")
 
 
@@ -81,7 +82,7 @@ def model_obs(o, keys):
     if "ver" in o:
         d = dict((k, v) for k, v in o["ver"])
         return {"ver": [d[k] for k in keys]}
-    return {"outs": list(o["outs"]), "stop": o["stop"]}
+    return {"outs": list(o["outs"]), "stop": o["stop"], "it": o.get("it")}
 
 
 # ------------------------------------------------------------------------------------------------
@@ -121,7 +122,10 @@ def real_obs(step, pup, muted):
             stop = names.get(top["line"], f"line{top['line']}")
         else:
             stop = "unknown"
-    return {"outs": outs, "stop": stop, "muted": muted}
+    it = (step.get("stop") or {}).get("peek")
+    if it is None:
+        it = ((step.get("probe") or {}).get("top") or {}).get("peek")
+    return {"outs": outs, "stop": stop, "it": it, "muted": muted}
 
 
 def same(real, model, muted):
@@ -129,6 +133,9 @@ def same(real, model, muted):
         return real.get("ver") == model["ver"]
     if real["stop"] != model["stop"]:
         return False
+    if model["stop"] in ORDER and model["stop"] != "exit" and real.get("it") is not None \
+            and model.get("it") is not None and real["it"] != model["it"]:
+        return False              # same line, another arrival (the puppet's own iteration counter)
     return muted or real["outs"] == model["outs"]
 
 
@@ -148,6 +155,8 @@ def classify(real, ref, keys):
         if ORDER.get(rs, 99) < ORDER.get(es, 99):
             return "unexpected_stop", rs
         return "missed_stop", es
+    if real.get("it") is not None and ref.get("it") is not None and real["it"] != ref["it"] and rs != "exit":
+        return "stop_at_wrong_arrival", f"{rs}: arrival {real['it']} instead of {ref['it']}"
     if len(real["outs"]) < len(ref["outs"]):
         return "missing_log", None
     if len(real["outs"]) > len(ref["outs"]):
@@ -189,6 +198,12 @@ def run_session(exe, steps, workdir, idx, timeout_s=60):
     return {"steps": [], "end": f"driver_died rc={p.returncode} {err.decode(errors='replace')[-300:]}", "stdout": ""}
 
 
+def unfinished(out):
+    """The session did not finish inside its budget (watchdog, overloaded machine, wedged launch): that is
+    never a statement about the property -- it is skipped and counted."""
+    return out["end"] == "hang" or out["end"].startswith("driver_died")
+
+
 def judge(beh, out, pup):
     """Compare one replayed behaviour with the reference.  Returns (record|None, info)."""
     info = {"steps_compared": 0, "drift": None, "muted_steps": 0, "explained_by": None}
@@ -205,18 +220,20 @@ def judge(beh, out, pup):
         if i >= len(real_steps):
             if out["end"] == "ok":
                 raise vlib.ToolError("driver stopped early without a divergence")
-            cls = {"hang": "hang"}.get(out["end"], "session_died")
+            cls = "session_died"
             return ({"cls": cls, "action": e["cmd"], "step": i, "expected": ref, "actual": out["end"],
                      "cause": "unexplained", "script": script}, info)
         real = real_obs(real_steps[i], pup, muted)
-        alive = {c for c in alive if same(real, model_obs(e["impl"][c], keys), muted)}
+        matching = {c for c in alive if same(real, model_obs(e["impl"][c], keys), muted)}
+        if "ver" not in ref:
+            alive = matching         # flags do not move the program: they do not narrow the run attribution
         info["steps_compared"] += 1
         if muted and e["cmd"] in RUN_CMDS:
             info["muted_steps"] += 1
         if not same(real, ref, muted):
             cls, what = classify(real, ref, keys)
-            single = sorted(c for c in alive if c != "asw")
-            cause = "+".join(single) if single else ("combination" if "asw" in alive else "unexplained")
+            single = sorted(c for c in matching if c != "asw")
+            cause = "+".join(single) if single else ("combination" if "asw" in matching else "unexplained")
             info["explained_by"] = cause
             rec = {"cls": cls, "action": e["cmd"], "step": i, "what": what, "expected": ref, "actual": real,
                    "cause": cause, "script": script[:i + 1]}
@@ -240,7 +257,10 @@ def judge(beh, out, pup):
 
 
 def _core(o):
-    return {k: v for k, v in o.items() if k != "nopt"}
+    d = {k: v for k, v in o.items() if k != "nopt"}
+    if d.get("stop") in ("exit", "error", "phantom"):
+        d.pop("it", None)
+    return d
 
 
 def is_clean(beh):
@@ -331,6 +351,8 @@ def run(rep, tier, replay):
             raise vlib.ToolError("replay file carries no behaviour")
         steps = [{"cmd": "launch", "args": {"program": pup["prog"]}}] + [to_dap(e, pup)[0] for e in beh]
         out = run_session(exe, steps, work, 0)
+        if unfinished(out):
+            raise vlib.ToolError(f"the replayed session did not finish inside its budget ({out['end']})")
         r, info = judge(beh, out, pup)
         for fr in info.pop("flag_records", []):
             rep.mismatch(fr["cls"], fr["action"], cause=fr["cause"], step=fr["step"], what=fr.get("what"),
@@ -345,13 +367,15 @@ def run(rep, tier, replay):
     # ---- 1. exhaustive model checking -------------------------------------------------------------
     cfgE = write_cfg(f"E_{tier}_{os.getpid()}.cfg", "DapBp_E.cfg", MaxReq=T["E_maxreq"])
     rE = vlib.tlc("DapBpMC", cfgE, workers=T["tlc_workers"], coverage=(tier == "thorough"),
-                  timeout=1500 if tier == "thorough" else 150, heap="6g", name=f"c13E-{tier}")
+                  timeout=1500 if tier == "thorough" else 420, heap="6g", name=f"c13E-{tier}")
     vlib.tlc_expect_ok(rE, "DapBp exhaustive (repaired design vs reference)")
     if rE.violated:
         raise vlib.ToolError(f"the repaired design violates {rE.violated}: reference and model are inconsistent\n"
                              + rE.out[-2500:])
     if tier == "thorough":
-        vac = [a for a in ("SetAct", "RunAct") if rE.coverage.get(a, (0, 0))[1] == 0]
+        vac = [a for a in ("ASetBreakpoints", "ASetFunctionBreakpoints", "ASetInstructionBreakpoints",
+                            "ASetDataBreakpoints", "AConfigurationDone", "AContinue", "ARestart")
+               if rE.coverage.get(a, (0, 0))[1] == 0]
         if vac:
             raise vlib.ToolError(f"vacuous TLC run: actions never taken: {vac}")
     vlib.log(f"[tlc] E {rE.distinct} states {rE.generated} transitions depth {rE.depth} {rE.wall:.0f}s")
@@ -369,20 +393,25 @@ def run(rep, tier, replay):
     vlib.log(f"[tlc] as-written model violates: {asw_violates}")
 
     # ---- 2. behaviour generation ------------------------------------------------------------------
-    rG = vlib.tlc("DapBpMC", "DapBp_G.cfg", workers=T["sim_workers"], simulate=T["sim"], depth=16,
-                  seed_arg=vlib.seed(), timeout=900, heap="4g", name=f"c13G-{tier}")
-    vlib.tlc_expect_ok(rG, "DapBp generation")
-    raw = vlib.printed(rG.out, "BEH")
+    raw = []
+    gen_wall = 0.0
+    for cfgG, share in (("DapBp_G.cfg", T["sim"]), ("DapBp_G2.cfg", T["sim_focus"])):
+        rG = vlib.tlc("DapBpMC", cfgG, workers=T["sim_workers"], simulate=share, depth=16,
+                      seed_arg=vlib.seed(), timeout=900, heap="4g", name=f"c13{cfgG[6:-4]}-{tier}")
+        vlib.tlc_expect_ok(rG, f"DapBp generation {cfgG}")
+        got = [b for b in vlib.printed(rG.out, "BEH") if isinstance(b, list)]
+        if not got:
+            raise vlib.ToolError(f"generation {cfgG} produced nothing\n{rG.out[-1500:]}")
+        raw += got
+        gen_wall += rG.wall
     seen, behs = set(), []
     for b in raw:
-        if not isinstance(b, list):
-            continue
         k = vlib.stable_hash([(e["cmd"], e["arg"]) for e in b])
         if k not in seen:
             seen.add(k)
             behs.append(b)
     if len(behs) < 50:
-        raise vlib.ToolError(f"generation produced only {len(behs)} behaviours\n{rG.out[-1500:]}")
+        raise vlib.ToolError(f"generation produced only {len(behs)} behaviours")
     cmds_seen = {e["cmd"] for b in behs for e in b}
     missing = {"setBreakpoints", "setFunctionBreakpoints", "setInstructionBreakpoints", "setDataBreakpoints",
                "configurationDone", "continue", "restart"} - cmds_seen
@@ -398,9 +427,10 @@ def run(rep, tier, replay):
     def job(ix):
         b = chosen[ix]
         steps = [{"cmd": "launch", "args": {"program": pup["prog"]}}] + [to_dap(e, pup)[0] for e in b]
-        o = run_session(exe, steps, work, ix)
-        if o["end"] != "ok" and not o["end"].startswith("panic"):
-            o2 = run_session(exe, steps, work, ix)      # an overloaded machine must not become a finding
+        per = 40 if tier == "quick" else 90
+        o = run_session(exe, steps, work, ix, timeout_s=per)
+        if o["end"] != "ok" and not o["end"].startswith("panic") and time.time() + per / 2 < deadline:
+            o2 = run_session(exe, steps, work, ix, timeout_s=per)   # an overloaded machine must not become a finding
             if o2["end"] == "ok":
                 o = o2
         return o
@@ -435,9 +465,12 @@ def run(rep, tier, replay):
         raise vlib.ToolError(f"only {len(done)} of {len(chosen)} sessions finished inside {T['replay_s']}s")
     vlib.log(f"[replay] {len(done)} of {len(chosen)} sessions in {time.time() - deadline + T['replay_s']:.0f}s")
 
-    n_ok = n_mis = steps_compared = muted_steps = 0
+    n_ok = n_mis = steps_compared = muted_steps = skipped = 0
     drift, causes, samples, obs_hashes = [], {}, [], set()
     for b, o in done:
+        if unfinished(o):
+            skipped += 1
+            continue
         r, info = judge(b, o, pup)
         for fr in info.get("flag_records", []):
             causes[fr["cause"] + "/" + fr["cls"]] = causes.get(fr["cause"] + "/" + fr["cls"], 0) + 1
@@ -458,6 +491,10 @@ def run(rep, tier, replay):
             causes[r["cause"] + "/" + r["cls"]] = causes.get(r["cause"] + "/" + r["cls"], 0) + 1
             rep.mismatch(r["cls"], r["action"], cause=r["cause"], step=r["step"], what=r.get("what"),
                          expected=r["expected"], actual=r["actual"], script=r["script"], behaviour=b)
+    if skipped:
+        vlib.log(f"[replay] {skipped} session(s) did not finish inside their budget: skipped, not judged")
+    if len(done) - skipped < min(T["min_sessions"], len(chosen)) or skipped > max(3, len(done) // 5):
+        raise vlib.ToolError(f"{skipped} of {len(done)} sessions did not finish inside their budget")
     if drift:
         vlib.log(f"MODEL-DRIFT: {len(drift)} session(s) conform to the reference although the as-written model "
                  f"predicts a divergence (has the code been repaired?), e.g. {drift[0]}")
@@ -475,7 +512,9 @@ def run(rep, tier, replay):
         "constants": {"MaxReq": T["E_maxreq"], "Lines": 3, "Exec": "P G G' L L L F I", "alphabet": "small"},
         "as_written_model_violates": asw_violates,
         "behaviours_generated": len(raw), "behaviours_distinct": len(behs),
-        "traces_validated_against_impl": len(done), "distinct_reference_observations": len(obs_hashes),
+        "traces_validated_against_impl": len(done) - skipped, "sessions_selected": len(chosen),
+        "sessions_not_started_in_budget": len(chosen) - len(done), "sessions_unfinished_skipped": skipped,
+        "distinct_reference_observations": len(obs_hashes),
         "sessions_conforming": n_ok, "sessions_diverging": n_mis, "requests_compared": steps_compared,
         "run_requests_in_muted_session": muted_steps,
         "divergences_by_cause_and_class": causes,
